@@ -346,3 +346,138 @@ def make_c06_oracle(meta_by_id):
                     found.append(("message-len", "%s message_len=%s, %d body bytes on the wire (tx %d)" % (side, t[ml], wire_body_len(m), i)))
         return found
     return oracle
+
+
+# ================================================================================================ C11
+
+F_SMUGGLING, F_INVALID_TE, F_HOST_MISSING, F_HOST_AMBIGUOUS = 0x100, 0x400, 0x1000, 0x2000
+F_HOSTU_INVALID, F_HOSTH_INVALID, F_REQUEST_INVALID, F_INVALID_CL = 0x2000000, 0x4000000, 0x100000000, 0x200000000
+CODING = {"NO_BODY": 1, "IDENTITY": 2, "CHUNKED": 3, "INVALID": 4}
+
+
+def spell(rng, name):
+    r = rng.random()
+    if r < 0.3:
+        return name
+    if r < 0.5:
+        return name.lower()
+    if r < 0.7:
+        return name.upper()
+    return bytes(c ^ 0x20 if (65 <= (c & ~0x20) <= 90 and rng.random() < 0.5) else c for c in name)
+
+
+def ows(rng):
+    return rng.choice((b" ", b"", b"  ", b"\t", b" \t "))
+
+
+def hline(rng, name, value):
+    return spell(rng, name) + b":" + ows(rng) + value + rng.choice((b"", b" ", b"\t")) + b"\r\n"
+
+
+def c11_case(rng):
+    """returns (request bytes, expectation dict, trigger name)"""
+    trig = rng.choice(("te+cl", "cl-twice", "cl-folded", "chunked-1.0", "cl-unparseable", "te-unsupported", "host-differs",
+                       "host-missing", "hostu-invalid", "hosth-invalid", "none"))
+    version = b"HTTP/1.1"
+    method = rng.choice((b"POST", b"PUT", b"GET"))
+    target = b"/p?x=1"
+    headers = []
+    host = b"www.example.com"
+    host_hdr = host
+    body = b""
+    exp = {"set": 0, "coding": None}
+    chunked_body = b"3\r\nabc\r\n0\r\n\r\n"
+    if trig == "te+cl":
+        headers += [(b"Transfer-Encoding", rng.choice((b"chunked", b"Chunked", b"gzip, chunked", b"chunked ", b"  chunked,foo"))),
+                    (b"Content-Length", rng.choice((b"3", b"0", b"100", b"abc")))]
+        body = chunked_body
+        exp = {"set": F_SMUGGLING, "coding": CODING["CHUNKED"]}
+    elif trig == "cl-twice":
+        a = rng.choice((b"3", b"5"))
+        b_ = rng.choice((a, b"7", a + b" "))
+        headers += [(b"Content-Length", a), (b"Content-Length", b_)]
+        body = b"abcdefgh"[:int(a)]
+        exp = {"set": F_SMUGGLING, "coding": None}
+    elif trig == "cl-folded":
+        headers += [(b"Content-Length", b"\r\n 3")]   # value on a continuation line
+        body = b"abc"
+        exp = {"set": F_SMUGGLING, "coding": None, "sig": "S4"}
+    elif trig == "chunked-1.0":
+        version = rng.choice((b"HTTP/1.0", b"HTTP/0.8", b"HTTP/x.y"))
+        headers += [(b"Transfer-Encoding", b"chunked")]
+        body = chunked_body
+        exp = {"set": F_SMUGGLING | F_INVALID_TE, "coding": CODING["CHUNKED"]}
+    elif trig == "cl-unparseable":
+        headers += [(b"Content-Length", rng.choice((b"abc", b"x", b";", b"- -")))]
+        exp = {"set": F_INVALID_CL | F_REQUEST_INVALID, "coding": CODING["INVALID"]}
+    elif trig == "te-unsupported":
+        headers += [(b"Transfer-Encoding", rng.choice((b"gzip", b"identity", b"chunkedx", b"xchunked", b"chun ked")))]
+        exp = {"set": F_INVALID_TE | F_REQUEST_INVALID, "coding": CODING["INVALID"]}
+    elif trig == "host-differs":
+        target = b"http://" + host + rng.choice((b"", b":80")) + b"/p"
+        host_hdr = rng.choice((b"other.example.com", b"www.example.org", host + b"x"))
+        exp = {"set": F_HOST_AMBIGUOUS, "coding": None}
+    elif trig == "host-missing":
+        host_hdr = None
+        exp = {"set": F_HOST_MISSING, "coding": None}
+    elif trig == "hostu-invalid":
+        bad = rng.choice((b"exa mple.com", b"a..b", b"-x_y!.com", b"host:99999", b"host:0", b"[::1", b"[gg::1]", b"a" * 64 + b".com"))
+        target = b"http://" + bad + b"/p"
+        host_hdr = None if rng.random() < 0.5 else b"h"
+        exp = {"set": F_HOSTU_INVALID, "coding": None}
+        if b" " in bad:
+            # a space ends the request target: the URI host is then "exa" (valid); no indicator is due
+            exp = {"set": 0, "coding": None}
+    elif trig == "hosth-invalid":
+        host_hdr = rng.choice((b"a..b", b"ho$t", b"host:99999", b"host:abc", b"[::1", b"[::1]x", b".", b"a" * 64))
+        exp = {"set": F_HOSTH_INVALID, "coding": None}
+    if host_hdr is not None:
+        headers.append((b"Host", host_hdr))
+    for _ in range(rng.randint(0, 3)):
+        headers.append((b"X-" + traffic.rand_token(rng, 1, 5), traffic.rand_value(rng)))
+    rng.shuffle(headers)
+    if trig == "cl-twice":
+        pass
+    req = method + b" " + target + b" " + version + b"\r\n"
+    for n, v in headers:
+        if v.startswith(b"\r\n"):
+            req += spell(rng, n) + b":" + v + b"\r\n"
+        else:
+            req += hline(rng, n, v)
+    req += b"\r\n" + body
+    return req, exp, trig
+
+
+def c11_scripts(ctx):
+    rng = ctx.rng
+    n = 900 if ctx.tier == "quick" else 8000
+    out, meta = [], []
+    for _ in range(n):
+        req, exp, trig = c11_case(rng)
+        mode = rng.choice(("whole", "whole", "bytes", "rand", ("cut", rng.randint(1, len(req) - 1))))
+        items = [">" + traffic.hx(p) for p in traffic.chunkings(req, rng, mode)]
+        cfg = rng.choice(("respdecomp=0", "p=IDS,respdecomp=0", "p=APACHE_2,respdecomp=0", "p=IIS_7_5,respdecomp=0", "p=GENERIC,respdecomp=0"))
+        out.append(traffic.script(cfg, "-", items))
+        meta.append((exp, trig, req))
+    return out, meta
+
+
+def make_c11_oracle(by_id):
+    def oracle(sc, outs):
+        m = by_id.get(id(sc))
+        if not m:
+            return []
+        exp, trig, req = m
+        g, slots = cl.final_dump(sc, outs)
+        if not slots or not slots[0]:
+            return [("no-tx", "no transaction reported for trigger %s" % trig)]
+        t = slots[0]
+        flags = int(t["flags"])
+        found = []
+        if (flags & exp["set"]) != exp["set"]:
+            found.append((exp.get("sig", "flag-missing:" + trig),
+                          "trigger %s: flags=%#x lack %#x; request %r" % (trig, flags, exp["set"] & ~flags, req[:120])))
+        if exp["coding"] is not None and int(t["tc"]) != exp["coding"]:
+            found.append(("coding:" + trig, "trigger %s: transfer coding %s, expected %d" % (trig, t["tc"], exp["coding"])))
+        return found
+    return oracle
